@@ -445,6 +445,19 @@ Proof.
   - rewrite B2. unfold s3. cbn. destruct (ts_buf s2); cbn; reflexivity.
 Qed.
 
+Lemma tbuf_quiescent_round_proof s :
+  let s' := tb_run s [TCons KSize; TCons KEmpty; TCons KConsume] in
+  let b := ts_buf s in
+  ts_obs s' = ts_obs s ++ [TONum (N.of_nat (length b)); TOBool (match b with [] => true | _ => false end)]
+  /\ ts_batches s' = ts_batches s ++ [b] /\ ts_buf s' = []
+  /\ round_exact (N.of_nat (length b), match b with [] => true | _ => false end, b) = true.
+Proof.
+  cbn. rewrite <- app_assoc. repeat split.
+  apply andb_true_iff. split.
+  - apply N.eqb_eq. rewrite lenN_spec. lia.
+  - destruct (ts_buf s); reflexivity.
+Qed.
+
 Lemma table_old_refuted : lockset_ok table_old = false /\ ~ race_free table_old.
 Proof.
   split; [vm_compute; reflexivity|]. intro H.
